@@ -38,19 +38,19 @@ CHECKS = {
         note=NOTE_TB + "Partial: the theorem quantifies over all crash points and persistence outcomes OF THE MODEL file system; the kernel / file system itself, and torn writes below the granularity of one write() prefix, are modelled not verified; crash images on real traces are enumerated per syscall boundary with sampled subsets of unsynced effects (not all 2^n in the quick tier). strace and the trace translator are trusted.",
         design="7/C05", technique="Coq proof (crash refinement of the publication protocol over a file-system model) + strace trace validation against the extracted protocol checker + real crash images opened by the crate"),
     "C06": dict(
-        text="PARTIAL (critical-section granularity). Coq interleaving model of the tree's threads (writer drawing seqnos and inserting under the read guard, rotation, flusher capturing sealed memtables, k compactors with the hidden set, major compaction, upgrade_version under the write guard, readers) with an inductive invariant CInv proved for EVERY schedule and every program set: retained superversions sound, hidden-set discipline, no acknowledged write lost, flusher prefix, major exclusive; corollaries: reads at clean (published) snapshots equal the ordered-map Spec, no expect() fires, final state holds every write, schedule independence; the unclean case is refuted (K2). Each run executes real threads (writer, readers, flushers, compactors, major, drop_range) against the crate under three snapshot modes, logs every read with the snapshot it used, and replays the log through the certificate / oracle runner; the final tree is reopened and compared.",
+        text="PARTIAL (critical-section granularity). Coq interleaving model of the tree's threads (writer drawing seqnos and inserting under the read guard, rotation, flusher capturing sealed memtables, k compactors with the hidden set, major compaction, upgrade_version under the write guard, readers) with an inductive invariant CInv proved for EVERY schedule and every program set: retained superversions sound, hidden-set discipline, no acknowledged write lost, flusher prefix, major exclusive; corollaries: reads at clean (published) snapshots equal the ordered-map Spec, no expect() fires, final state holds every write, schedule independence; the unclean case is refuted (K2). Each run executes real threads (writer, readers, flushers, compactors, major, drop_range; every second run with a slow keep-everything compaction filter that widens the merge-to-commit window) against the crate under three snapshot modes, logs every read with the snapshot it used, and replays the log through the certificate / oracle runner; the final tree is reopened and compared.",
         note=NOTE_TB + "Partial: the proof covers all interleavings of the MODEL's atomic steps (critical sections as the source takes its locks); memory-model effects below that granularity and the OS scheduler are not modelled; real runs sample schedules only. Known finding K2 (a write drawn before but inserted after a concurrent version upgrade can be missed by a snapshot taken from the visible counter) is reported as KNOWN-FINDING.",
         design="7/C06", technique="Coq proof (inductive invariant over all schedules of an interleaving model) + threaded differential runs replayed through the certificate checker"),
     "C10": dict(
-        text="PARTIAL (hash as parameter). Byte-level Coq models of the block envelope (33-byte header with its own checksum + payload checksum + type), the version file guarded by the checksum in `current` (F8 fix), the `current` file, the sfa table of contents / trailer and the blob frame, with theorems that EVERY single-byte change and EVERY truncation of a guarded region yields an error or the unchanged answer, for every checksum function that separates the two byte strings (the hypothesis is exactly 'the 128-bit xxh3 of the altered bytes differs'), plus explicit refutations for the regions the format leaves unguarded (blob frame header seqno / length fields seen only by the relocation scanner; F8 before the fix). Each run enumerates bit flips and truncations over every region of real table / blob / version / current files produced by generated histories, then performs open + all point reads + scans in an isolated process and requires an error or the original answers.",
-        note=NOTE_TB + "Partial: collision-freeness of xxh3 on the compared pair is a hypothesis of each theorem (no hash can make it unconditional); the enumeration on real files samples positions per region in the quick tier (all regions, not all bytes).",
+        text="PARTIAL (hash as parameter). Byte-level Coq models of the block envelope (33-byte header with its own checksum + payload checksum + type), the version file guarded by the checksum in `current` (F8 fix), the `current` file, the sfa table of contents / trailer and the blob frame, with theorems that EVERY single-byte change and EVERY truncation of a guarded region yields an error or the unchanged answer, for every checksum function that separates the two byte strings (the hypothesis is exactly 'the 128-bit xxh3 of the altered bytes differs'), plus explicit refutations for the regions the format leaves unguarded (blob frame header seqno / length fields seen only by the relocation scanner; F8 before the fix). Each run enumerates bit flips and truncations over every region of real table / blob / version / current files produced by generated histories, then performs open + all point reads + scans in an isolated process, for table and blob files followed by a major compaction and all reads again, and requires for every single answer an error or the original answer; a read-out that does not terminate is a violation.",
+        note=NOTE_TB + "Partial: collision-freeness of xxh3 on the compared pair is a hypothesis of each theorem (no hash can make it unconditional); the enumeration on real files samples positions per file (14 in the quick tier, 120 in the thorough tier; not every byte).",
         design="7/C10", technique="Coq proof (every byte of the guarded envelopes is covered by a checked checksum) + fault enumeration over real files with full read-out"),
     "C16": dict(
-        text="PARTIAL (protocol level). Over the same file-system model: a failure of any syscall of a publication leaves memory at the old version and the directory in a state from which recovery yields the old or the new version and a retry is accepted (fail_atomic, publish_shape_ok), and the late-failure case (root fsync after the rename of `current` fails, then retry) is refuted with a witness (Ex2.late_failure_retry_refuted = known finding K3). Each run fails every file-system syscall of flush / compaction / drop_range / clear / ingestion one at a time with strace fault injection (EIO, ENOSPC) on real histories and requires: Err without panic, unchanged reads and dumps, successful retry, recoverable directory.",
+        text="PARTIAL (protocol level). Over the same file-system model: a failure of any syscall of a publication leaves memory at the old version and the directory in a state from which recovery yields the old or the new version and a retry is accepted (fail_atomic, publish_shape_ok), and the late-failure case (root fsync after the rename of `current` fails, then retry) is refuted with a witness (Ex2.late_failure_retry_refuted = known finding K3). Each run fails every file-system syscall of flush / compaction / drop_range / clear / ingestion one at a time with strace fault injection (EIO, ENOSPC) on real histories and requires: Err without panic, unchanged reads and dumps, successful retry (or, in other variants, a different publishing operation instead of the retry, or a reopen right after the failed call), recoverable directory.",
         note=NOTE_TB + "Partial: as C05; additionally fault points are the syscalls the unchanged code issues (a change that adds syscalls gets new points automatically). K3 is reported as KNOWN-FINDING.",
         design="7/C16", technique="Coq proof (failure atomicity of the publication protocol) + syscall fault injection on the real crate"),
     "C20": dict(
-        text="PARTIAL (model of deletion = is_deleted flag + last reference). Theorems: the reclaim function deletes exactly the files named by no retained version (reclaim_exact) and keeps every file a retained version names (reclaim_keeps), and the maintenance trace satisfies the protocol. Each run lists the real directory after every operation and after every reopen and compares tables/, blobs/ and v* with what the current and the retained versions name (leak / live-file-missing), with snapshots held and released, failed operations and crash leftovers in the histories; the extracted reclaim must agree with the set of files the crate removed.",
+        text="PARTIAL (model of deletion = is_deleted flag + last reference). Theorems: the reclaim function deletes exactly the files named by no retained version (reclaim_exact) and keeps every file a retained version names (reclaim_keeps), and the maintenance trace satisfies the protocol. Each run lists the real directory after every operation and after every reopen and compares tables/, blobs/ and v* with what the current and the retained versions name (leak / live-file-missing), with snapshots held and released, failed operations and crash leftovers in the histories; the extracted reclaim must agree with the set of files the crate removed; the same listing check runs on every recovered crash image of a further set of histories.",
         note=NOTE_TB + "Partial: Arc reference counting is modelled as 'the set of retained versions'; Drop ordering in the runtime is observed, not proved. Findings F10 (clear leaked files) and F11 (empty ingestion leaked its table file) were found by this check and fixed.",
         design="7/C20", technique="Coq proof (reclaim exactness over retained versions) + directory-listing differential after every operation"),
     "C07": dict(
@@ -59,11 +59,11 @@ CHECKS = {
         design="7/C07", technique="Coq proof (invariant preservation per transformation) + certificate on every dumped version"),
     "C08": dict(
         text="Logical blob model (frames, blob files, pointers, GC map; flush with separation, pass-through / relocating / filtering merges, drops, reopen) with a decidable invariant BInv (every pointer resolves to a frame written for its key with the recorded sizes; distinct pointers hit distinct frames) preserved by every transformation under the crate's own eligibility condition for relocation, plus transparency theorems (tables read through their pointers equal the standard tree's flush/merge). Real runs execute the same history on a BlobTree and a standard Tree (and further BlobTrees with other thresholds / file sizes / staleness / age cutoff) and require identical answers; after every step every pointer of the latest version is resolved through the crate's own accessor and compared with the written bytes.",
-        note=NOTE_TB + "Blob compression = None (lz4 feature not in this build); B3 (separation_threshold 0 with empty values) and B5 (relocation of ingested blobs) are proved as refutations and outside the generated configurations.",
+        note=NOTE_TB + "Blob compression = None (lz4 feature not in this build); B3 (separation_threshold 0 with empty values) is proved as a refutation and outside the generated configurations; K4 (relocation of ingested blobs, proved as C08_relocate_scan_refuted) is a listed known finding.",
         design="7/C08", technique="Coq proof (pointer-resolution invariant + transparency) + BlobTree-vs-Tree differential"),
     "C09": dict(
         text="Proof that BInv's accounting clause (recorded garbage of every blob file = its frames no table entry points to, by brute force) is preserved by flush / merges (using the exact drop-callback log of the stream) / drops / reopen, that stale_blob_bytes is the on-disk sum, that a file is dead iff unreferenced and is gone after the next merge / effective drop. Real runs recompute garbage by brute force from the dumps after every step (all frames ever created minus the frames referenced by the version's tables) and compare with gc_stats(), stale_blob_bytes(), blob_file_count(), across reopen, with histories heavy on overwrite / delete / filter verdicts / drop_range / ingestion / relocation.",
-        note=NOTE_TB + "Known finding K1 (a drop keeps a statistics entry for the file it removed; asserted by the crate's own test) is reported as KNOWN-FINDING.",
+        note=NOTE_TB + "Known findings K1 (a drop keeps a statistics entry for the file it removed; asserted by the crate's own test) and K4 (relocating compaction panics over ingested blob files) are reported as KNOWN-FINDING.",
         design="7/C09", technique="Coq proof (accounting invariant over the stream's drop log) + brute-force garbage recomputation on dumps"),
     "C11": dict(
         text="Proof that point reads and scans (all bounds, all pull interleavings) of a structurally sound superversion depend only on its logical content as a multiset of entries (permutation-invariance via the read-path refinement theorems), and that ANY cache / descriptor table that only returns what was inserted under a (tag, tree id, file id, offset) key - any capacity incl. zero, any eviction, shared with other trees - is transparent (loads_independent, shared_cache_isolated, key injectivity). Real runs execute the same history on 4-8 trees with configurations drawn from the whole product (block size, restart interval, hash ratio, partitioning, pinning, filter policy incl. none, cache 0..1MiB, fd table none/1/64) and require identical observations and Spec agreement, and on 3-4 trees that share one tiny cache and descriptor table while holding different data under coinciding table ids.",
